@@ -284,3 +284,55 @@ def count_after(e, callee_suffix):
             n += 1
         e = e[3]
     return n, e
+
+
+def _find_ite(e):
+    if isinstance(e, tuple) and e:
+        if e[0] == 'ite':
+            return e
+        for x in e[1:] if isinstance(e[0], str) else e:
+            if isinstance(x, tuple):
+                r = _find_ite(x)
+                if r is not None:
+                    return r
+    return None
+
+
+def _replace_once(e, old, new):
+    if e is old or e == old:
+        return new
+    if isinstance(e, tuple):
+        return tuple(_replace_once(x, old, new) if isinstance(x, tuple) else x for x in e)
+    return e
+
+
+def paths_deep(e, limit=5000):
+    """like paths_of, but also splits on ite nodes nested inside aggregates and call arguments.
+    Conditions of the outer tree come first. Branches whose value is `never` are dropped."""
+    out = []
+
+    def rec(x, conds):
+        if len(out) > limit:
+            return
+        it = _find_ite(x)
+        if it is None:
+            out.append((conds, x))
+            return
+        # conditions may themselves contain ites: split those first
+        inner = _find_ite(it[1])
+        if inner is not None:
+            it = inner
+        allv = tuple(c for c, _ in it[2])
+        decided = [v for c, v, _ in conds if c == it[1]]
+        for v, sub in it[2]:
+            if sub == ('never',):
+                continue
+            if decided:
+                if v != decided[0]:
+                    continue
+                rec(_replace_once(x, it, sub), conds)
+            else:
+                rec(_replace_once(x, it, sub), conds + ((it[1], v, allv),))
+
+    rec(e, ())
+    return out
